@@ -202,6 +202,12 @@ def cases(rng, tier, shard, nshards):
     from .. import boot
     mods = boot.modules()
     total = META['quick_cases'] if tier == 'quick' else META['thorough_cases']
+    # long ranges (thousands of points) whose farthest point is a feature a few samples wide
+    for _ in range(2 if tier == 'quick' else 4):
+        cs = pick(rng, COSTS)
+        yield {'points': gen.long_spiky(rng), 'family': 'long-spiky', 'layout': 'C', 'cost': cs,
+               'distance': pick(rng, DISTANCES), 't': {'r2': 0.9, 'rmsle': 0.02}.get(cs, 0.05) * pick(rng, [0.5, 1.0, 2.0]) if cs != 'r2' else 0.9,
+               'follow': []}
     for i in range(shard_count(total, shard, nshards)):
         r = rng.random()
         if tier == 'thorough' and r < 0.01:
